@@ -7,7 +7,7 @@ Model of the text-conserving kernels behind property C09 ("rendering keeps the t
   `ParsedEpytextDocstring._to_node` (which text of the tree becomes visible), `_tokenize_literal`,
   `_tokenize_doctest` (block slicing);
 * `pydoctor/epydoc/doctest.py`: `colorize_codeblock_body`, `subfunc`, `colorize_doctest_body`
-  (regex match spans are parameters);
+  (regex match spans are parameters; `…Old` = the code before a0449ac);
 * `pydoctor/epydoc/markup/plaintext.py`: `ParsedPlaintextDocstring.to_stan`;
 * `pydoctor/epydoc2stan.py`: what each `FieldHandler.handle_*` function and `extract_fields` do with
   a field (rendered under a heading / handed to an attribute / reported / nothing).
@@ -517,9 +517,15 @@ def splitNL : List Char → List Line
     | [] => [[]]
     | p :: ps => if c = '\n' then [] :: p :: ps else (c :: p) :: ps
 
+/-- `want[:-1] if want.endswith('\n') else want` -/
+def dropFinalNewline (want : List Char) : List Char :=
+  if want.getLast? = some '\n' then want.dropLast else want
+
+/-- the expected output of one example: only the final newline is dropped, then one span and one
+newline per line (pydoctor a0449ac) -/
 def wantPieces (isExcept : Bool) (want : List Char) : List Piece :=
   if want.isEmpty then [] else
-  (splitNL (rstrip want)).flatMap fun line =>
+  (splitNL (dropFinalNewline want)).flatMap fun line =>
     [.span (if isExcept then .except_ else .output) line, .raw ['\n']]
 
 /-- `colorize_doctest_body(s)` -/
@@ -530,6 +536,22 @@ def doctestBody (P : Params) (s : List Char) : List Example → Nat → Except E
     let want := slice s ex.srcEnd ex.stop
     match codeblockBody P pysrc ex.inner 0, doctestBody P s exs ex.stop with
     | .ok src, .ok rest => .ok (.raw (slice s idx ex.start) :: src ++ wantPieces ex.isExcept want ++ rest)
+    | _, _ => .error .assertion
+
+/-! ### before a0449ac (kept for the historical counterexample): `for line in want.rstrip().split('\n')` -/
+
+def wantPiecesOld (isExcept : Bool) (want : List Char) : List Piece :=
+  if want.isEmpty then [] else
+  (splitNL (rstrip want)).flatMap fun line =>
+    [.span (if isExcept then .except_ else .output) line, .raw ['\n']]
+
+def doctestBodyOld (P : Params) (s : List Char) : List Example → Nat → Except Error (List Piece)
+  | [], idx => .ok [.raw (s.drop idx)]
+  | ex :: exs, idx =>
+    let pysrc := slice s ex.start ex.srcEnd
+    let want := slice s ex.srcEnd ex.stop
+    match codeblockBody P pysrc ex.inner 0, doctestBodyOld P s exs ex.stop with
+    | .ok src, .ok rest => .ok (.raw (slice s idx ex.start) :: src ++ wantPiecesOld ex.isExcept want ++ rest)
     | _, _ => .error .assertion
 
 end Doctest
@@ -590,7 +612,11 @@ def handler (fn : String) (k : ObjKind) (s : Shape) : Outcome :=
     if s.hasArg then shown "Parameters" (paramNotFoundReports k s) else ⟨none, false, false, true, true⟩
   else if fn = "handle_keyword" then
     if s.hasArg then shown "Parameters" (k = .function && s.paramExists) else ⟨none, false, false, true, true⟩
-  else if fn = "handled_elsewhere" then ⟨none, false, false, false, true⟩
+  else if fn = "handled_elsewhere" then
+    -- left to extract_fields for modules and classes (`CanContainImportsDocumentable`); reported elsewhere (513af36)
+    match k with
+    | .module | .cls => ⟨none, false, false, false, true⟩
+    | .function | .attr => ⟨none, false, false, true, true⟩
   else if fn = "handle_raises" then shown "Raises" (!s.hasArg)
   else if fn = "handle_warns" then shown "Warns" false
   else if fn = "handle_seealso" then shown "See Also" false
